@@ -78,7 +78,32 @@ pub fn avro_value(a: &dyn Array, i: usize) -> Value {
             };
             val("union", pos as i64, zero(), nob(), vec![avro_value(u.child(tid).as_ref(), off)])
         }
+        RunEndEncoded(r, _) => {
+            // the value the row denotes (run-end encoding has no Avro counterpart: the writer declares the value type)
+            macro_rules! ree {
+                ($t:ty) => {{
+                    let ra = a.as_any().downcast_ref::<RunArray<$t>>().unwrap();
+                    avro_value(ra.values().as_ref(), ra.get_physical_index(i))
+                }};
+            }
+            match r.data_type() {
+                Int16 => ree!(Int16Type),
+                Int32 => ree!(Int32Type),
+                _ => ree!(Int64Type),
+            }
+        }
         _ => val("other", 0, zero(), nob(), vec![]),
+    }
+}
+
+/// a run-end encoded array below a struct / list / map (scopes a known finding)
+pub fn ree_nested(t: &DataType, below: bool) -> bool {
+    use DataType::*;
+    match t {
+        RunEndEncoded(_, _) => below,
+        List(f) | LargeList(f) | FixedSizeList(f, _) | Map(f, _) => ree_nested(f.data_type(), true),
+        Struct(fs) => fs.iter().any(|f| ree_nested(f.data_type(), true)),
+        _ => false,
     }
 }
 
@@ -201,6 +226,11 @@ fn rows_of(b: &RecordBatch) -> Vec<Value> {
 }
 
 fn read_ocf(bytes: &[u8], bs: usize) -> (String, Vec<String>, String) {
+    let bytes = bytes.to_vec();
+    with_timeout(8, move || read_ocf_inner(&bytes, bs)).unwrap_or(("hang".into(), vec![], String::new()))
+}
+
+fn read_ocf_inner(bytes: &[u8], bs: usize) -> (String, Vec<String>, String) {
     let r = guarded(|| {
         let rd = ReaderBuilder::new().with_batch_size(bs).build(Cursor::new(bytes.to_vec())).map_err(|e| format!("open:{}", variant(&e)))?;
         let sch = norm_schema(&rd.schema());
@@ -219,6 +249,11 @@ fn read_ocf(bytes: &[u8], bs: usize) -> (String, Vec<String>, String) {
 }
 
 fn read_soe(bytes: &[u8], store: SchemaStore, bs: usize) -> (String, Vec<String>, String) {
+    let bytes = bytes.to_vec();
+    with_timeout(8, move || read_soe_inner(&bytes, store, bs)).unwrap_or(("hang".into(), vec![], String::new()))
+}
+
+fn read_soe_inner(bytes: &[u8], store: SchemaStore, bs: usize) -> (String, Vec<String>, String) {
     let r = guarded(|| {
         let mut dec = ReaderBuilder::new().with_writer_schema_store(store).with_batch_size(bs).build_decoder().map_err(|e| format!("open:{}", variant(&e)))?;
         let mut rows = vec![];
@@ -266,8 +301,14 @@ pub fn round_trips(args: &Args, rng: &mut Rng, tr: &mut Shards) -> (usize, usize
         ("bzip2", Some(CompressionCodec::Bzip2)),
         ("xz", Some(CompressionCodec::Xz)),
     ];
+    let mut hangs = 0;
     for _ in 0..args.scale(800, 28000) {
         let Some(case) = gen_case(rng) else { continue };
+        // every hang leaves a spinning thread behind: after a few, cases of the same class are not run any more
+        if hangs >= 3 && case.schema.fields().iter().any(|f| ree_nested(f.data_type(), false)) {
+            skipped += 1;
+            continue;
+        }
         let framing = *rng.pick(&["ocf", "ocf", "ocf", "soe", "soe", "confluent", "apicurio", "binary"]);
         let bs = *rng.pick(&[1usize, 2, 1024]);
         let nrows = case.batch.num_rows();
@@ -278,10 +319,12 @@ pub fn round_trips(args: &Args, rng: &mut Rng, tr: &mut Shards) -> (usize, usize
                 let u = a.as_union();
                 Value::Array((0..u.len()).map(|i| Value::from(u.type_id(i))).collect())
             }).collect::<Vec<_>>(),
+            "ree_nested": case.schema.fields().iter().any(|f| ree_nested(f.data_type(), false)),
             "types": case.schema.fields().iter().map(|f| safe(&format!("{:?}", f.data_type()))).collect::<Vec<_>>(),
         });
         if framing == "ocf" {
             let (cname, codec) = if rng.chance(50) { codecs[0] } else { *rng.pick(&codecs) };
+        if std::env::var("C17_DEBUG").is_ok() { eprintln!("avro ocf write {}", norm_schema(&case.schema)); }
             let written = guarded(|| {
                 let mut w = WriterBuilder::new(case.schema.as_ref().clone()).with_compression(codec).build::<_, AvroOcfFormat>(Vec::new()).map_err(|e| variant(&e))?;
                 for p in &case.parts {
@@ -305,7 +348,11 @@ pub fn round_trips(args: &Args, rng: &mut Rng, tr: &mut Shards) -> (usize, usize
                     continue;
                 }
             };
+        if std::env::var("C17_DEBUG").is_ok() { eprintln!("avro ocf read {}", norm_schema(&case.schema)); }
             let (outcome, rows_out, schema_out) = read_ocf(&file, bs);
+            if outcome == "hang" {
+                hangs += 1;
+            }
             ev["wout"] = json!("ok");
             ev["stream_is_concat"] = json!(true);
             ev["id"] = json!(0);
@@ -336,6 +383,7 @@ pub fn round_trips(args: &Args, rng: &mut Rng, tr: &mut Shards) -> (usize, usize
                 }
                 _ => (None, 0),
             };
+        if std::env::var("C17_DEBUG").is_ok() { eprintln!("avro encode {}", norm_schema(&case.schema)); }
             let encoded = guarded(|| {
                 let mut wb = WriterBuilder::new(case.schema.as_ref().clone());
                 if let Some(s) = strategy {
@@ -369,6 +417,7 @@ pub fn round_trips(args: &Args, rng: &mut Rng, tr: &mut Shards) -> (usize, usize
             ev["id"] = json!(id);
             // the stream writer must produce the concatenation of the encoder's messages
             if framing != "binary" {
+        if std::env::var("C17_DEBUG").is_ok() { eprintln!("avro stream write {}", norm_schema(&case.schema)); }
                 let streamed = guarded(|| {
                     let mut wb = WriterBuilder::new(case.schema.as_ref().clone());
                     if let Some(s) = strategy {
@@ -413,7 +462,11 @@ pub fn round_trips(args: &Args, rng: &mut Rng, tr: &mut Shards) -> (usize, usize
                     skipped += 1;
                     continue;
                 };
+        if std::env::var("C17_DEBUG").is_ok() { eprintln!("avro soe read {}", norm_schema(&case.schema)); }
                 let (outcome, rows_out, schema_out) = read_soe(&stream, store, bs);
+                if outcome == "hang" {
+                    hangs += 1;
+                }
                 if ev.get("outcome").is_none() {
                     ev["outcome"] = json!(outcome);
                 }
